@@ -42,6 +42,7 @@ type Case struct {
 	Seeks     []int          `json:"seeks"`
 	SkipIndex bool           `json:"skipindex,omitempty"` // reader: SkipPageIndex(true)
 	Async     bool           `json:"async,omitempty"`     // reader: asynchronous read mode
+	RowGroups bool           `json:"rowgroups,omitempty"` // the rows are written through BeginRowGroup / Commit (row groups filled independently)
 	Reused    bool           `json:"reused,omitempty"`    // the writer wrote (and closed) another encrypted file before, then was Reset
 }
 
@@ -98,6 +99,11 @@ func genCase(t *rapid.T) Case {
 			Off:  []int{0, 2, 4, 10, 16, 500, 985, 999}[rapid.IntRange(0, 7).Draw(t, "toffk")],
 			Mask: byte(1 << uint(rapid.IntRange(0, 7).Draw(t, "tbit"))),
 		})
+	}
+	c.RowGroups = rapid.IntRange(0, 5).Draw(t, "rowgroups") == 0
+	if c.RowGroups && kit.Known("C18", "c18/concurrent-row-group-writers-not-encrypted") {
+		kit.Excluded("concurrent-row-group-writers")
+		c.RowGroups = false
 	}
 	c.Reused = rapid.IntRange(0, 3).Draw(t, "reused") == 0
 	c.SkipIndex = rapid.IntRange(0, 2).Draw(t, "skipindex") == 0
@@ -253,7 +259,23 @@ func write(c Case, cols []ref.Column, rows []ref.V, cfg *parquet.EncryptionConfi
 		}
 		w.Reset(&buf)
 	}
-	if err := pq.ApplyOps(w, prows, c.Ops); err != nil {
+	if c.RowGroups {
+		// two row groups filled side by side, committed in order
+		half := len(prows) / 2
+		a, b := w.BeginRowGroup(), w.BeginRowGroup()
+		if _, err := a.WriteRows(prows[:half]); err != nil {
+			return nil, err
+		}
+		if _, err := b.WriteRows(prows[half:]); err != nil {
+			return nil, err
+		}
+		if _, err := a.Commit(); err != nil {
+			return nil, err
+		}
+		if _, err := b.Commit(); err != nil {
+			return nil, err
+		}
+	} else if err := pq.ApplyOps(w, prows, c.Ops); err != nil {
 		return nil, err
 	}
 	if err := w.Close(); err != nil {
@@ -320,7 +342,18 @@ func prefixDiff(cols []ref.Column, want [][][]ref.LV, got []parquet.Row) string 
 	return ""
 }
 
+// runCase files every failure of a case written through BeginRowGroup under one signature
+// (open finding: those row groups are not encrypted at all).
 func runCase(c Case, o *kit.Obs) *kit.Failure {
+	f := runCaseInner(c, o)
+	if f != nil && c.RowGroups {
+		f.Msg = "rows written through BeginRowGroup/Commit with encryption configured: " + f.Msg + " [" + f.Sig + "]"
+		f.Sig = "c18/concurrent-row-group-writers-not-encrypted"
+	}
+	return f
+}
+
+func runCaseInner(c Case, o *kit.Obs) *kit.Failure {
 	fileOpts = nil
 	if c.SkipIndex {
 		fileOpts = append(fileOpts, parquet.SkipPageIndex(true))
@@ -597,6 +630,7 @@ func runCase(c Case, o *kit.Obs) *kit.Failure {
 	o.Class("footer-" + map[bool]string{true: "encrypted", false: "plaintext"}[c.EncFooter])
 	o.ClassIf(len(c.ColKeys) > 0, "column-keys")
 	o.ClassIf(c.Reused, "writer-reused-after-reset")
+	o.ClassIf(c.RowGroups, "concurrent-row-group-writers")
 	o.ClassIf(c.SkipIndex, "reader-without-page-index")
 	o.ClassIf(c.Async, "reader-async")
 	o.ClassIf(len(ef.RowGroups) >= 2, "multi-rowgroup")
